@@ -291,7 +291,9 @@ def run_shard(desc, seed, tier, col):
         der = x690.der(T, v)
         for label, v2 in neighbours(d, T, v)[:4]:
             try:
-                inputs.append((label, x690.der(T, v2), False))
+                # (in DER, or in a drawn non-canonical form: a check done for one length form only would go unnoticed)
+                nform = d.pick(['DER', 'DER', 'CER', 'BER-indef'])
+                inputs.append((label, x690.der(T, v2) if nform == 'DER' else gen.encode_form(draw, T, v2, nform), False))
             except Exception:
                 pass
         for label, b in structural(d, T, v, der):
